@@ -131,10 +131,11 @@ func (ArchLinux) Package(info *nfpm.Info, w io.Writer) error {
 	if err != nil {
 		return err
 	}
-	defer zw.Close()
+	// the writers are properly closed later, this is just in case that we error out
+	defer zw.Close() // nolint: errcheck
 
 	tw := tar.NewWriter(zw)
-	defer tw.Close()
+	defer tw.Close() // nolint: errcheck
 
 	entries, totalSize, err := createFilesInTar(info, tw)
 	if err != nil {
@@ -154,7 +155,20 @@ func (ArchLinux) Package(info *nfpm.Info, w io.Writer) error {
 		return fmt.Errorf("create mtree: %w", err)
 	}
 
-	return createScripts(info, tw)
+	if err := createScripts(info, tw); err != nil {
+		return err
+	}
+
+	// closing flushes the archive to w: a failure to do so must be reported
+	if err := tw.Close(); err != nil {
+		return fmt.Errorf("closing tar: %w", err)
+	}
+
+	if err := zw.Close(); err != nil {
+		return fmt.Errorf("closing zstd: %w", err)
+	}
+
+	return nil
 }
 
 // ConventionalExtension returns the file name conventionally used for Arch Linux packages
